@@ -28,7 +28,8 @@
              dirty.S.L.I     … and the received copy is NOT the message as it was published (every handler edits its copy in
                              place – payload field replaced, hop counter incremented, mark set – so a redelivery that carries
                              the edits of the failed attempt shows here)
-             uf.S.L.I.ctx|panic   invocation I failed WITHOUT a scripted fault: the stage honours the context of the message it
+             uf.S.L.I.ctx|panic|nack   invocation I failed WITHOUT a scripted fault (nack: the Router nacked although neither the
+                             handler nor the scripted publisher failed, i.e. the output was refused by something else): the stage honours the context of the message it
                              is handed and that context was already cancelled at delivery (ctx), or the handler panicked where
                              nothing was scripted, e.g. the received copy's metadata cannot be written (panic).  The failure goes
                              to the Router like any other (Nack, redelivery); the harness pauses 1..50 ms before it returns
@@ -100,6 +101,7 @@ def parseEv (tok : String) : Option Ev :=
   | ["stop", s] => do some (.stopped (← s.toNat?))
   | ["uf", s, l, i, "ctx"] => do some (.unscripted (← s.toNat?) (← l.toNat?) (← i.toNat?))
   | ["uf", s, l, i, "panic"] => do some (.unscripted (← s.toNat?) (← l.toNat?) (← i.toNat?))
+  | ["uf", s, l, i, "nack"] => do some (.unscripted (← s.toNat?) (← l.toNat?) (← i.toNat?))
   | ["livelock", s, l] => do some (.livelock (← s.toNat?) (← l.toNat?))
   | ["sb", l, s] => do some (.sinkVia (← l.toNat?) (← s.toNat?))
   | ["hs", s, l, i] => do some (.hStart (← s.toNat?) (← l.toNat?) (← i.toNat?))
